@@ -3470,8 +3470,9 @@ class Qube(object):
 
         obj = self.clone(recursive=False, retain_cache=True)
 
-        # Mask out zeros
+        # Mask out zeros; true division yields floats even then
         if arg == 0:
+            obj._set_values_(self._values_ / 1., retain_cache=True)
             obj._set_mask_(True)
         else:
             obj._set_values_(self._values_ / arg, retain_cache=True)
@@ -3768,8 +3769,9 @@ class Qube(object):
 
         obj = self.clone(recursive=False, retain_cache=True)
 
-        # Mask out zeros
+        # Mask out zeros; the values get the dtype "values % arg" would have
         if arg == 0:
+            obj._set_values_(self._values_ + arg, retain_cache=True)
             obj._set_mask_(True)
         else:
             obj._set_values_(self._values_ % arg, retain_cache=True)
